@@ -92,14 +92,21 @@ class RollingReduction(Expr):
             columns = [col for col in self.frame.columns if col in columns]
             if columns == self.frame.columns:
                 return
-            if self.groupby_kwargs is not None:
-                return type(parent)(
-                    type(self)(self.frame[columns], *self.operands[1:]),
-                    *parent.operands[1:],
-                )
-            if len(columns) == 1:
-                columns = columns[0]
-            return type(self)(self.frame[columns], *self.operands[1:])
+            selection = parent.operand("columns")
+            if (
+                self.groupby_kwargs is None
+                and not isinstance(selection, (list, pd.Index))
+                and columns == [selection]
+            ):
+                # a single column selected as a series: roll over the series
+                return type(self)(self.frame[selection], *self.operands[1:])
+            # Otherwise narrow the input and keep the projection on top: the
+            # narrowed input can be wider than what this parent selects (other
+            # dependents), and the parent decides about order and frame/series
+            return type(parent)(
+                type(self)(self.frame[columns], *self.operands[1:]),
+                *parent.operands[1:],
+            )
 
     @property
     def _is_blockwise_op(self):
